@@ -11,7 +11,7 @@ _CTRL = "".join(chr(c) for c in range(1, 32))
 
 
 def gen_component(rng, style=None):
-    style = style or rng.wpick([(6, "ascii"), (3, "bmp"), (2, "astral"), (1, "ctrl"), (1, "space"), (1, "dot"), (1, "drive"), (1, "mixed"), (1, "long")])
+    style = style or rng.wpick([(6, "ascii"), (3, "bmp"), (2, "astral"), (1, "ctrl"), (1, "space"), (1, "dot"), (1, "drive"), (1, "mixed"), (1, "long"), (1, "special")])
     n = rng.randint(1, 8)
     if style == "ascii":
         s = "".join(rng.pick(_ASCII) for _ in range(n))
@@ -27,6 +27,11 @@ def gen_component(rng, style=None):
         s = rng.pick([".hidden", "..a", "...", ".a.", "a.", "a..", ".x" + rng.pick(_ASCII)])
     elif style == "drive":
         s = rng.pick(["c:", "C:", "c:x", "z:"]) + "".join(rng.pick(_ASCII) for _ in range(rng.randint(0, 3)))
+    elif style == "special":
+        # scalar values codecs and normalisers like to treat specially: byte-order marks and their mirror image, noncharacters,
+        # line/paragraph separators, zero-width and bidi controls, a combining mark first, NFC next to NFD
+        s = rng.pick(["\ufeffbom", "\ufffeab", "\ufeff", "\ufffe", "a\ufeff", "\uffff", "\ufdd0x", "\U0001fffe", "\u2028l", "a\u2029", "\u200bz", "\u202ea",
+                      "\u0301a", "\u00e9", "e\u0301", "\u212b", "\u00c5", "\ufb01", "\U0010ffff", "\ud7ff\ue000"]) + rng.pick(["", "", "q", "\ufeff"])
     elif style == "long":
         s = "".join(rng.pick(_ASCII + _BMP) for _ in range(rng.randint(40, 120)))
     else:
